@@ -21,10 +21,16 @@ theorem binop_error_right (ext : Ext) (op : BinOp) (l : S) (c : Code) (hl : isEr
   simp [binop, firstErr, hl]
 
 theorem other_ops_error (ext : Ext) (c : Code) (x : S) (hx : isErr x = none) :
-    power ext (.err c) x = .val (.err c) ∧ power ext x (.err c) = .val (.err c) ∧
+    power ext (.err c) x = .val (.err c) ∧
     concat ext (.err c) x = .val (.err c) ∧ concat ext x (.err c) = .val (.err c) ∧
     neg ext (.err c) = .val (.err c) ∧ percent ext (.err c) = .val (.err c) := by
   simp [power, concat, neg, percent, firstErr, hx]
+
+/-- `^` validates its two numeric parameters in order: an error exponent is the result whenever the
+    base is an operand that coerces to a number (a non-numeric text base gives its own #VALUE! first) -/
+theorem power_error_right (ext : Ext) (c : Code) (x : S) (n : Num) (hx : isErr x = none)
+    (hn : toNumber ext x = .ok n) : power ext x (.err c) = .val (.err c) := by
+  simp [power, hx, hn, OpR.ofNum]
 
 /-- leftmost error wins when both operands are errors -/
 theorem binop_two_errors (ext : Ext) (op : BinOp) (c d : Code) :
@@ -116,9 +122,12 @@ theorem ops_total (ext : Ext) (l r : S) (k : Crash) :
   · unfold power
     split
     · simp
-    · refine ofNum_ne_py ext l _ k fun a => ofNum_ne_py ext r _ k fun b => ?_
-      repeat' split
-      all_goals simp
+    · refine ofNum_ne_py ext l _ k fun a => ?_
+      split
+      · simp
+      · refine ofNum_ne_py ext r _ k fun b => ?_
+        repeat' split
+        all_goals simp
   · unfold concat; split <;> simp
   · unfold neg; split
     · simp
